@@ -17,10 +17,11 @@ CFG = dict(
         "function body at every instance of its signature; numbat's inference of these sets (type schemes) is C02's and "
         "C16's subject, not modelled here",
         "Model/QtyProg.lean (evalP, evalArgs, runProg) is a hand-written model of what the compiler and the VM do for "
-        "the fragment (one opcode per operator, strict && and ||, lazy conditional, arguments left to right, raw values "
+        "the fragment (one opcode per operator, strict && and ||, lazy conditional, arguments left to right, `where` "
+        "clauses in order as further locals, raw values "
         "of globals); it is tied to the code by the `mprog` stream: generated programs of the fragment run definition "
         "by definition on the real interpreter, raw value of every new global compared bit for bit",
-        "generic/inferred polymorphism itself, where-clauses, structs and lists are outside the Lean model; for them "
+        "the inference of polymorphic types, structs and lists are outside the Lean model; for them "
         "the claim rests on the implementation oracle (raw value of every global vs reported static type) over generated programs",
     ],
     assumptions=[
@@ -50,18 +51,19 @@ CLAIM = dict(
          "program_soundness_closed / program_no_incompatible — for every sequence of `let` and `fn` definitions typed "
          "by ProgOK (expressions as in (1) plus earlier globals, parameters, conversions `a -> unit expression`, the "
          "six comparisons, && || !, boolean literals, if-then-else, and calls of first-order — possibly recursive, "
-         "possibly generic — user functions; polymorphic globals and generic signatures are sets of instances), running it with the model of the compiler+VM (evalP/runProg, any fuel) from a session that "
+         "possibly generic — user functions with `where` clauses; polymorphic globals and generic signatures are "
+         "sets of instances), running it with the model of the compiler+VM (evalP/runProg, any fuel) from a session that "
          "satisfies the invariant ends in a session in which every global agrees with its static type and every "
          "function is checked, or fails with a division by zero (or the model's fuel runs out); never with a unit "
          "incompatibility, never with an operand of the wrong kind. The model is tied to the code by the `mprog` "
          "stream (bit-exact raw values of all globals of generated programs of the fragment). The rest of the "
-         "property (the inference of generic signatures, where-clauses, structs, lists, unit and dimension "
+         "property (the inference of generic signatures, structs, lists, unit and dimension "
          "definitions) is checked on the real interpreter: generated type-directed programs, the raw value of every "
          "global — recursively through struct fields and list elements — against the static type the checker "
          "reports, and the kind of every run-time failure.",
     design_ref="DESIGN.md section 5 C01",
     note="Partial: the theorems cover the program fragment (incl. generic functions and polymorphic lets, as instance "
-         "sets) over exact arithmetic; where-clauses, structs and "
+         "sets, and where-clauses) over exact arithmetic; structs and "
          "lists are exploration-level (implementation oracle over generated programs). Proving the conversion rule and "
          "running the fragment on the interpreter exposed two more genuine defects (C01-convert-to-zero: `1 m -> 0`; "
          "C01-zero-nonfinite: a polymorphic zero times NaN), recorded as known findings next to the composite "
